@@ -61,6 +61,14 @@ void vp_thr_pb(V* v, int tid, unsigned long unused, unsigned long probe) {
   vp_ret(tid, it.my_index, (void*)&*it);
   if (probe != ~0ul) vp_sample(tid, probe, &(*v)[probe]);
 }
+// wait-only variant: grow_to_at_least(n) WITHOUT a value (default construction) so that its internal_grow<> instantiation differs from
+// grow_by(delta, value)'s and can be cut: the unit then contains only the "size >= n already: wait for the segments" path of this thread
+void vp_thr_gtalw(V* v, int tid, unsigned long n, unsigned long probe) {
+  auto it = v->grow_to_at_least(n);
+  vp_gtal_done(tid, n);
+  vp_ret(tid, it.my_index, nullptr);
+  if (probe != ~0ul) vp_sample(tid, probe, &(*v)[probe]);
+}
 void vp_thr_gtal(V* v, int tid, unsigned long n, unsigned long probe) {
   Elem proto(100 + tid, Elem::quiet{});
   auto it = v->grow_to_at_least(n, proto);
